@@ -6,6 +6,10 @@
 //!   client_msg     signers through SignerWithStakeMessagePart -> JSON text -> back (what a client
 //!                  recomputing a stake-distribution message does), in reverse order
 //!   key_roundtrip  the resulting key through its json-hex encoding and back
+//!   signer_view    every registered party restores its signer from its stored initializer over the
+//!                  registrations in arrival order A (what the signer node does) and signs; the signature
+//!                  carries the signer's OWN derivation of the registration commitment and must be
+//!                  accepted by the multi-signer built over arrival order B (the aggregator node)
 use std::collections::BTreeMap;
 
 use mithril_common::crypto_helper::{ProtocolAggregateVerificationKey, ProtocolKey};
@@ -31,6 +35,34 @@ fn set_id(sel: &[(usize, u64)]) -> String {
 struct Pool {
     params: ProtocolParameters,
     signers: Vec<SignerWithStake>, // sorted by verification key bytes: k1 < k2 < ...
+    initializers: Vec<mithril_common::crypto_helper::ProtocolInitializer>, // same order
+}
+
+/// the stored initializer of a party, with the stake it is registered with in this set (the signer node restores
+/// its initializer from its store and the stake comes from the stake distribution of the epoch)
+fn initializer_with_stake(init: &mithril_common::crypto_helper::ProtocolInitializer, stake: u64) -> Option<mithril_common::crypto_helper::ProtocolInitializer> {
+    let mut j = serde_json::to_value(init).ok()?;
+    fn patch(v: &mut Value, stake: u64) -> bool {
+        match v {
+            Value::Object(m) => {
+                let mut hit = false;
+                for (k, x) in m.iter_mut() {
+                    if k == "stake" && x.is_u64() {
+                        *x = json!(stake);
+                        hit = true;
+                    } else {
+                        hit |= patch(x, stake);
+                    }
+                }
+                hit
+            }
+            _ => false,
+        }
+    }
+    if !patch(&mut j, stake) {
+        return None;
+    }
+    serde_json::from_value(j).ok()
 }
 
 fn with_stake(s: &SignerWithStake, stake: u64) -> SignerWithStake {
@@ -105,6 +137,30 @@ fn run_paths(trace: &mut Trace, pool: &Pool, sel: &[(usize, u64)], order_a: &[us
         Ok((hex, total, "n/a".into()))
     });
     emit(trace, &set, "client_msg", "reverse", res);
+    // --- signer view: each party's own signer (registrations in order A) against the multi-signer over order B
+    let signers_a: Vec<SignerWithStake> = order_a.iter().map(|k| with_stake(&pool.signers[*k], stake_of[k])).collect();
+    for (k, stake) in sel {
+        let res = guarded(|| -> Result<Option<bool>, String> {
+            let at_signer = SignerBuilder::new(&signers_a, &pool.params).map_err(|e| format!("{e:#}"))?;
+            let at_aggregator = SignerBuilder::new(&signers_b, &pool.params).map_err(|e| format!("{e:#}"))?.build_multi_signer();
+            let init = initializer_with_stake(&pool.initializers[*k], *stake).ok_or("initializer stake not patchable")?;
+            let single = at_signer.restore_signer_from_initializer(pool.signers[*k].party_id.clone(), init).map_err(|e| format!("{e:#}"))?;
+            // the first of a few fixed messages on which this party wins a lottery (none: nothing to compare)
+            for n in 0..40u32 {
+                let msg = format!("c06-message-{n}");
+                if let Some(sig) = single.sign(&msg).map_err(|e| format!("{e:#}"))? {
+                    return Ok(Some(at_aggregator.verify_single_signature(&msg, &sig).is_ok()));
+                }
+            }
+            Ok(None)
+        });
+        match res {
+            Guarded::Done(Ok(Some(ok))) => trace.emit(json!({"ev":"SignerView","set":set,"key":format!("k{}", k + 1),"stake":stake.to_string(),"accepted": if ok { "yes" } else { "no" }})),
+            Guarded::Done(Ok(None)) => trace.emit(json!({"ev":"SignerView","set":set,"key":format!("k{}", k + 1),"stake":stake.to_string(),"accepted":"no-win"})),
+            Guarded::Done(Err(e)) => trace.emit(json!({"ev":"AvkError","set":set,"path":"signer_view","perm":format!("k{}", k + 1),"what":e})),
+            Guarded::Panic(m) => trace.emit(json!({"ev":"Panic","set":set,"path":"signer_view","what":m})),
+        }
+    }
 }
 
 fn main() {
@@ -115,13 +171,15 @@ fn main() {
     let mut r = rng(seed, 6);
     let params = ProtocolParameters { k: 2, m: 10, phi_f: 0.8 };
     let fixture = MithrilFixtureBuilder::default().with_signers(6).with_protocol_parameters(params.clone()).build();
-    let mut signers = fixture.signers_with_stake();
-    signers.sort_by_key(|s| {
-        let vk = mithril_stm::VerificationKeyProofOfPossessionForConcatenation::from(s.verification_key_for_concatenation.to_owned()).vk;
+    let mut fx = fixture.signers_fixture();
+    fx.sort_by_key(|s| {
+        let vk = mithril_stm::VerificationKeyProofOfPossessionForConcatenation::from(s.signer_with_stake.verification_key_for_concatenation.to_owned()).vk;
         vk
     });
-    let pool = Pool { params, signers };
-    let stake_val = |v: u64| if v == 1 { 10 } else { 25 };
+    let signers: Vec<SignerWithStake> = fx.iter().map(|s| s.signer_with_stake.clone()).collect();
+    let initializers = fx.iter().map(|s| s.protocol_initializer.clone()).collect();
+    let pool = Pool { params, signers, initializers };
+    let stake_val = |v: u64| match v { 0 => 0, 1 => 10, _ => 25 };
     let mut n = 0u64;
     for c in read_ndjson(args.req("cases")) {
         let target = c["target"].as_object().unwrap();
@@ -143,7 +201,7 @@ fn main() {
             keys.swap(i, below(&mut r, i as u64 + 1) as usize);
         }
         keys.truncate(nk);
-        let stakes = [1u64, 7, 7, 1_000_000, u64::MAX / 8];
+        let stakes = [0u64, 1, 7, 7, 1_000_000, u64::MAX / 8];
         let sel: Vec<(usize, u64)> = keys.iter().map(|k| (*k, stakes[below(&mut r, stakes.len() as u64) as usize])).collect();
         let mut a = keys.clone();
         let mut b = keys.clone();
